@@ -12,18 +12,11 @@ Section Transparency.
 
   (* the premise of the property: nothing is stored beneath (or twice at) an unloaded directory *)
   Definition wf (i : idx) : Prop :=
-    (forall x y, In x i -> In y i -> loadable E x = true -> is_prefix (fst x) (fst y) = true -> y = x) /\
-    (forall x, In x i -> fst x <> []).                     (* the root key carries no entry *)
+    forall x y, In x i -> In y i -> loadable E x = true -> is_prefix (fst x) (fst y) = true -> y = x.
 
   Lemma wf_load_where s i : ok i -> wf i -> wf (load_where E s i).
   Proof.
-    intros Hok [Hwf Hnr]. split.
-    2:{ intros y Hy. apply load_where_in in Hy as [x [Hx Hy]]. pose proof (Hnr x Hx) as NR.
-        destruct (s x); [|destruct Hy as [<-|[]]; assumption].
-        destruct (expand_cases E x) as [Hex|[_ [rows [_ Hex]]]]; rewrite Hex in Hy.
-        - destruct Hy as [<-|[]]; assumption.
-        - destruct Hy as [<-|Hc]; [assumption|]. destruct (child_key _ _ _ Hc) as [sfx ->].
-          destruct (fst x); [congruence | discriminate]. }
+    intros Hok Hwf.
     intros x' y' Hx' Hy' L P.
     destruct (loadable_after E s i x' Hok Hx' L) as [Hxi Sx].
     apply load_where_in in Hy' as [y [Hyi Hy']].
@@ -202,7 +195,7 @@ Section Transparency.
   (* after the loads of __getitem__ / of iteritems' first step nothing unloaded is above k *)
   Lemma lp_post i k : ok i -> wf i -> NSP (load_where E (s_lp i k) i) k.
   Proof.
-    intros Hok [Hwf _] x Hx L.
+    intros Hok Hwf x Hx L.
     destruct (loadable_after E _ i x Hok Hx L) as [Hxi Sx].
     destruct (strict_prefix (fst x) k) eqn:SP; [|reflexivity]. exfalso.
     apply strict_prefix_spec in SP as [P NE].
@@ -221,7 +214,7 @@ Section Transparency.
   Lemma get_post i k : ok i -> wf i -> NSP (load_where E (get_sel i k) i) k.
   Proof.
     intros Hok Hwf0. unfold get_sel. destruct (lookup i k) as [e|] eqn:Lk; [|now apply lp_post].
-    destruct Hwf0 as [Hwf _]. intros x Hx L. destruct (loadable_after E _ i x Hok Hx L) as [Hxi _].
+    pose proof Hwf0 as Hwf. intros x Hx L. destruct (loadable_after E _ i x Hok Hx L) as [Hxi _].
     destruct (strict_prefix (fst x) k) eqn:SP; [|reflexivity]. exfalso.
     apply strict_prefix_spec in SP as [P NE]. apply lookup_in in Lk.
     pose proof (Hwf x (k, e) Hxi Lk L P) as Q. apply NE. now rewrite <- Q.
@@ -307,7 +300,7 @@ Section Transparency.
 
   Lemma ensure_post i k : ok i -> wf i -> NSP i k -> NP (load_where E (ensure_sel k i) i) k.
   Proof.
-    intros Hok [Hwf _] H x Hx L. destruct (loadable_after E _ i x Hok Hx L) as [Hxi Sx].
+    intros Hok Hwf H x Hx L. destruct (loadable_after E _ i x Hok Hx L) as [Hxi Sx].
     destruct (is_prefix (fst x) k) eqn:P; [|reflexivity]. exfalso.
     pose proof (H x Hxi L) as C. unfold strict_prefix in C. rewrite P in C. simpl in C.
     apply negb_false_iff, key_eqb_eq in C.
@@ -402,7 +395,7 @@ Section Transparency.
 
   Lemma items_post i p : ok i -> wf i -> NSP i p -> clear_of (load_where E (items_sel i p false) i) p.
   Proof.
-    intros Hok [Hwf _] N x Hx L. destruct (loadable_after E _ i x Hok Hx L) as [Hxi Sx].
+    intros Hok Hwf N x Hx L. destruct (loadable_after E _ i x Hok Hx L) as [Hxi Sx].
     unfold items_sel in Sx. simpl in Sx. rewrite andb_true_r in Sx. split; [|assumption].
     destruct (is_prefix (fst x) p) eqn:P; [|reflexivity]. exfalso.
     pose proof (N x Hxi L) as C. unfold strict_prefix in C. rewrite P in C. simpl in C.
@@ -453,23 +446,22 @@ Section Transparency.
   Qed.
 
   Lemma view_q_load s i f :
-    (forall x, In x i -> loadable E x = true -> pathok f (fst x) = false) ->
-    (forall x, In x i -> fst x <> []) ->
+    (forall x, In x i -> loadable E x = true -> fst x <> [] /\ pathok f (fst x) = false) ->
     view_items_q f (load_where E s i) = view_items_q f i.
   Proof.
-    intros H NR. unfold view_items_q. f_equal.
+    intros H. unfold view_items_q. f_equal.
     assert (forall z, In z (filter (pathok f) (map fst (load_where E s i))) <->
                       In z (filter (pathok f) (map fst i))) as K.
     { intros z. rewrite !filter_In. split; intros [Hz P]; split; try assumption.
       - destruct (key_of_load s i z Hz) as [?|[x [sfx [Hx [L ->]]]]]; [assumption|]. exfalso.
-        pose proof (H x Hx L) as C. rewrite (pathok_prefix f _ _ (NR x Hx) P) in C. discriminate.
+        destruct (H x Hx L) as [NR C]. rewrite (pathok_prefix f _ _ NR P) in C. discriminate.
       - apply in_map_iff in Hz as [x [<- Hx]]. now apply key_in_load. }
     rewrite (usort_keys_ext _ _ K). apply map_ext_in. intros z Hz. f_equal.
     apply lookupS_load. intros x Hx L.
     apply usort_in in Hz; [|apply key_total]. apply filter_In in Hz as [_ P].
     destruct (strict_prefix (fst x) z) eqn:SP; [|reflexivity]. exfalso.
     apply strict_prefix_spec in SP as [P' _]. apply is_prefix_spec in P' as [sfx ->].
-    pose proof (H x Hx L) as C. rewrite (pathok_prefix f _ _ (NR x Hx) P) in C. discriminate.
+    destruct (H x Hx L) as [NR C]. rewrite (pathok_prefix f _ _ NR P) in C. discriminate.
   Qed.
 
   Lemma listing_isdir e rows : listing_of E e = Some rows -> hi_isdir (e_hash e) = true.
@@ -482,14 +474,13 @@ Section Transparency.
   Proof.
     intros i Hok Hwf. unfold view_items_step.
     rewrite guarded_lazy, guarded_full by assumption. simpl. split; [eauto | split; [|reflexivity]].
-    pose proof (wf_load_where (view_sel f) i Hok Hwf) as [_ NR].
     rewrite <- (view_q_load s_all (load_where E (view_sel f) i) f).
     - fold (load_all E). now rewrite load_all_absorbs.
     - intros x Hx L. destruct (loadable_after E _ i x Hok Hx L) as [Hxi Sx].
-      unfold view_sel in Sx. destruct (pathok f (fst x)); [|reflexivity]. simpl in Sx.
+      unfold view_sel in Sx.
       pose proof (Hok x Hxi L) as R. destruct (listing_of E (snd x)) as [rows|] eqn:Q; [|congruence].
-      rewrite (listing_isdir _ _ Q) in Sx. discriminate.
-    - exact NR.
+      rewrite (listing_isdir _ _ Q), andb_true_r in Sx.
+      destruct (fst x) as [|a t]; [discriminate|]. split; [discriminate | exact Sx].
   Qed.
 
   (* ---- composing simulations ---- *)
